@@ -112,6 +112,15 @@ def _release_lock_on_arr_writeability(arr: np.ndarray):
     writeability restored.
     """
     arr_id = id(arr)
+
+    if not array_is_tracked(arr):
+        # `arr` is not under mygrad's control (e.g. it is natively read-only).
+        # A count stored under its id was left behind by an array that was freed
+        # without being released, and whose id has been reused: it must not be
+        # mistaken for a lock on `arr`
+        _array_counter.pop(arr_id, None)
+        return
+
     num_active_ops = _array_counter[arr_id]
 
     if num_active_ops == 1:
